@@ -177,6 +177,18 @@ func runConv(tgt string, srcv interface{}, variant string) (o convObs) {
 		if variant == "ref" {
 			opts = []ucfg.Option{ucfg.VarExp}
 			cfg, err = ucfg.NewFrom(map[string]interface{}{"v": "${x}", "x": srcv}, opts...)
+		} else if variant == "set" {
+			cfg = ucfg.New()
+			switch x := srcv.(type) {
+			case int64:
+				err = cfg.SetInt("v", -1, x)
+			case uint64:
+				err = cfg.SetUint("v", -1, x)
+			case float64:
+				err = cfg.SetFloat("v", -1, x)
+			case string:
+				err = cfg.SetString("v", -1, x)
+			}
 		} else {
 			cfg, err = ucfg.NewFrom(map[string]interface{}{"v": srcv})
 		}
@@ -296,7 +308,9 @@ type convCase struct {
 }
 
 func convVariants(tgt string) []string {
-	vs := []string{"field", "ptr", "named", "ref"}
+	// "set": the setting is stored by the typed setter, which keeps the kind verbatim
+	// (NewFrom stores every non-negative Go integer as an unsigned setting)
+	vs := []string{"field", "ptr", "named", "ref", "set"}
 	switch tgt {
 	case "int64", "int", "uint64", "uint", "float64":
 		vs = append(vs, "getter")
